@@ -241,8 +241,10 @@ func (h *H[T]) Observe() *seqmc.Fail {
 		for i, v := range want {
 			vals[i] = h.mk(v)
 		}
-		if got, w := h.T.String(), fmt.Sprint(vals); got != w {
-			return seqmc.Failf("String", "String() = %q, want %q", got, w)
+		// no format is promised: the rendering must name exactly the contents
+		_ = vals
+		if got := h.T.String(); !enum.SameMultiset(enum.IntTokens(got), want) {
+			return seqmc.Failf("String", "String() = %q, contents %v", got, want)
 		}
 	}
 	// observers called from inside a walk's callback (read-only re-entrancy on the same tree): the outer
